@@ -97,7 +97,8 @@ def classes():
                         if plan.get('name_clash') and clash_names:
                             nm = clash_names.pop(0)
                         sig[key] = self.wire(nm, out_width(nd, o, W))
-            for j, nd in enumerate(plan['nodes']):
+            for j in plan.get('order') or range(len(plan['nodes'])):
+                nd = plan['nodes'][j]
                 i = [sig[tuple(r)] for r in nd['ins']]
                 o = [sig[('n', j, k)] for k in range(nd.get('nout', 1))]
                 c, nm = nd['cls'], 'n%d' % j
@@ -222,6 +223,32 @@ def gen_netlist(rnd, big=False):
                 while t < n_nodes and not wide(t):
                     t += 1
                 nd['ins'][k] = ['n', t, rnd.choice(wide(t))] if t < n_nodes else (['i', rnd.randrange(n_in)] if n_in else ['n', 0, 0])
+    motif = None
+    if rnd.random() < 0.35:
+        # several outputs of one block converge on one multi-input sink that also waits for deeper logic (so it sits two or more
+        # columns away), another reader of the first output is created after that sink, and a register loop follows
+        motif = 'converge'
+        src0 = ['i', rnd.randrange(n_in)] if n_in else ['n', 0, 0]
+        b = len(nodes)
+        k = rnd.randrange(2, 4)
+        nodes.append(dict(cls=rnd.choice(['HLeaf', 'HLeaf', 'HReg']), ins=[src0], nout=k))                    # b   : S
+        depth = rnd.randrange(1, 4)
+        prev = ['n', b, k - 1]
+        for q in range(depth):                                                                               # b+1.. : deeper logic
+            nodes.append(dict(cls=rnd.choice(['Not', 'Buf']), ins=[prev], nout=1))
+            prev = ['n', len(nodes) - 1, 0]
+        x = len(nodes)
+        xin = [['n', b, 0], ['n', b, 1], prev]
+        rnd.shuffle(xin)
+        nodes.append(dict(cls='HLeaf', ins=xin, nout=1))                                                     # X
+        nodes.append(dict(cls=rnd.choice(['Not', 'Buf']), ins=[['n', b, 0]], nout=1))                        # Y, after X
+        r_ = len(nodes)
+        nodes.append(dict(cls='Reg', ins=[['n', r_ + 1, 0]], nout=1))                                        # R  <- Z (feedback)
+        nodes.append(dict(cls='And2', ins=[['n', x, 0], ['n', r_, 0]], nout=1))                              # Z
+        for j in range(b, len(nodes)):
+            for o in range(nodes[j]['nout']):
+                outs_of.append((j, o, False))
+        n_nodes = len(nodes)
     used = set()
     for nd in nodes:
         for r in nd['ins']:
@@ -235,7 +262,30 @@ def gen_netlist(rnd, big=False):
         c = [('i', k) for k in range(n_in)] + [('n', a, b) for a, b, eq in outs_of if not eq]
         outs.append(list(rnd.choice(c)))
     # an internal wire may carry the same short name as a wire of the enclosing scope that sits on a port (different owners)
-    return dict(w=W, n_in=n_in, nodes=nodes, outs=outs, name_clash=rnd.random() < 0.15)
+    plan = dict(w=W, n_in=n_in, nodes=nodes, outs=outs, name_clash=rnd.random() < 0.15)
+    if motif:
+        plan['motif'] = motif
+    # the order in which the children are instantiated need not follow the data flow
+    q = rnd.random()
+    if q < 0.25:
+        order = list(range(len(nodes)))
+        rnd.shuffle(order)
+        plan['order'] = order
+    elif q < 0.35:
+        plan['order'] = list(range(len(nodes) - 1, -1, -1))
+    return plan
+
+
+def _converging(nodes):
+    """sinks that read two different outputs of one multi-output node"""
+    n = 0
+    for nd in nodes:
+        per = {}
+        for r in nd['ins']:
+            if r[0] == 'n':
+                per.setdefault(r[1], set()).add(r[2])
+        n += sum(1 for v in per.values() if len(v) > 1)
+    return n
 
 
 def features(plan):
@@ -269,7 +319,8 @@ def features(plan):
     lib = [nd for nd in nodes if nd['cls'] == 'Lib']
     return dict(max_fanout=max(fan.values()), feedback_edges=fb, self_loops=selfloop, max_span=span, nodes=len(nodes),
                 lib_nodes=len(lib), lib_optional_ports=sum(len(nd.get('opts') or {}) for nd in lib),
-                multi_output_nodes=sum(1 for nd in nodes if nd.get('nout', 1) > 1))
+                multi_output_nodes=sum(1 for nd in nodes if nd.get('nout', 1) > 1),
+                converging_outputs=_converging(nodes), creation_order_permuted=bool(plan.get('order')))
 
 
 def build(case):
